@@ -462,6 +462,10 @@ def prochist_stream(ctx, res) -> None:
             res.count("prochist-generator-discarded")
     t0 = time.time()
     try:
+        corpus = [c["process_history"] for c in B.load_corpus() if "process_history" in c]
+        if corpus:
+            check_histories(res, corpus)
+            res.count("corpus", len(corpus))
         for i in range(0, len(histories), 22):
             if time.time() > ctx.deadline:
                 res.notes.append("deadline reached in the process-history stream")
